@@ -93,14 +93,23 @@ def cases(draw, tier):
             prev = lab
         outs.append(prev)
         nl = dict(nl, gates=gates, outputs=outs)
-    if nl['gates'] and nl['style'] != 'digits' and draw(st.integers(0, 5)) == 0 and all(g[0] != '' for g in nl['gates']):
+    merges = any(a[0] in ('MEG', 'MDG') for a in atoms_of(spec))
+    if nl['gates'] and nl['style'] != 'digits' and draw(st.integers(0, 2 if merges else 5)) == 0 and all(g[0] != '' for g in nl['gates']):
         # one gate carries the empty label (legal, and falsy) - preferably a gate the passes have something to do with:
-        # one of several gates with the same type and operand set, or a unary gate
-        seen: dict = {}
-        for g in nl['gates']:
-            seen.setdefault((g[1], tuple(sorted(g[2]))), []).append(g[0])
-        cand = [l for k, ls in seen.items() if len(ls) > 1 and k[0] != 'INPUT' for l in ls]
-        cand += [g[0] for g in nl['gates'] if g[1] in ('NOT', 'IFF', 'LNOT', 'RNOT', 'LIFF', 'RIFF')]
+        # one of several gates computing the same function, or a unary gate
+        cand = []
+        if len(nl['inputs']) <= 7:
+            try:
+                t = refsem.tables(nl)
+                groups: dict = {}
+                for g in nl['gates']:
+                    if g[1] != 'INPUT':
+                        groups.setdefault(t[g[0]], []).append(g[0])
+                cand = [l for ls in groups.values() if len(ls) > 1 for l in ls]
+            except Exception:  # noqa
+                cand = []
+        if not cand or draw(st.integers(0, 3)) == 0:
+            cand = cand + [g[0] for g in nl['gates'] if g[1] in ('NOT', 'IFF', 'LNOT', 'RNOT', 'LIFF', 'RIFF')]
         cand = cand or [g[0] for g in nl['gates']]
         old = cand[draw(st.integers(0, len(cand) - 1))]
         r = lambda x: '' if x == old else x
